@@ -154,4 +154,25 @@ def TC.mostCommon (s : TC K) (n : Option Int) : List (K × Nat) :=
   | none => sortDesc s.items
   | some n => if n ≤ 0 then [] else (sortDesc s.items).take n.toNat
 
+/-! canonical printing of `most_common` results (keys are numbers in the driver).  The statement asks for
+    "sorted by descending count" only: the order among equal counts is free, and so is the choice among
+    equal counts at the cut of `most_common(n)`.  Both sides of the correspondence print a result through
+    `canon` / `canonTop`, so that exactly the free part is not compared. -/
+
+/-- count descending, then key ascending -/
+def canonLe (a b : Nat × Nat) : Bool := b.2 < a.2 || (a.2 == b.2 && a.1 ≤ b.1)
+
+def insCanon (x : Nat × Nat) : List (Nat × Nat) → List (Nat × Nat)
+  | [] => [x]
+  | y :: ys => if canonLe x y then x :: y :: ys else y :: insCanon x ys
+
+def canon (l : List (Nat × Nat)) : List (Nat × Nat) := l.foldr insCanon []
+
+/-- a `most_common(n)` result: counts in descending order; the keys of the entries with the smallest
+    returned count are not named (`none`): which of several equally frequent keys make the cut is free -/
+def canonTop (r : List (Nat × Nat)) : List (Option Nat × Nat) :=
+  match (canon r).getLast? with
+  | none => []
+  | some last => (canon r).map fun p => if last.2 < p.2 then (some p.1, p.2) else (none, p.2)
+
 end C20
